@@ -33,7 +33,12 @@ struct Worker {
 }
 
 fn spawn_worker(env: &[(String, String)], init: &[Vec<u8>]) -> Worker {
-    let exe = std::env::current_exe().expect("current_exe");
+    // ABYV_WORKER_EXE in the pool's environment selects another build of the harness for the workers
+    // (the dev-profile pass: debug assertions and overflow checks on in the subject and in rabuf)
+    let exe = match env.iter().find(|(k, _)| k == "ABYV_WORKER_EXE") {
+        Some((_, v)) => std::path::PathBuf::from(v),
+        None => std::env::current_exe().expect("current_exe"),
+    };
     let mut cmd = Command::new(exe);
     cmd.arg("worker").stdin(Stdio::piped()).stdout(Stdio::piped()).stderr(Stdio::inherit());
     for (k, v) in env {
